@@ -29,11 +29,15 @@ PIPES: Dict[str, List[str]] = {
     "slicers": ["sweep_src", "slice_muldef", "slice_probe", "sum"],
     "sweep-op": ["src", "sweep_op", "sum"],
     "file-sink": ["src", "sink_cfg"],
+    # every run FAILS after the census point (unresolvable parameter): error paths must not leave residue either
+    "failing": ["src", "<census>", "mul"],
 }
 WAYS = ["reused-pipeline", "fresh-pipelines", "cli-launch", "queue-worker"]
 
 
 def nodes_for(pipe: str) -> List[dict]:
+    if "<census>" in PIPES[pipe]:
+        return [{"processor": "VCensus"} if s == "<census>" else copy.deepcopy(gen.SYMBOLS[s]["node"]) for s in PIPES[pipe]]
     nodes = [copy.deepcopy(gen.SYMBOLS[s]["node"]) for s in PIPES[pipe]]
     # the census processor needs float data: place it where the data is a float
     kinds = [gen.SYMBOLS[s]["kind"] for s in PIPES[pipe]]
@@ -64,13 +68,22 @@ def run_way(pipe: str, way: str, n: int) -> dict:
     at = tuple(a for a in AT if a <= n)
     C.census_reset(at)
     C.LOG_ON[0] = False  # the harness's own execution log must not count as residue
+    failing = pipe == "failing"
+
+    def once(p):
+        try:
+            p.process(Payload(None, ContextType({})))
+        except KeyError:
+            if not failing:
+                raise
+
     if way == "reused-pipeline":
         p = Pipeline(cfg.nodes)
         for _ in range(n):
-            p.process(Payload(None, ContextType({})))
+            once(p)
     elif way == "fresh-pipelines":
         for _ in range(n):
-            Pipeline(cfg.nodes).process(Payload(None, ContextType({})))
+            once(Pipeline(cfg.nodes))
     elif way == "cli-launch":
         y = {"extensions": ["verif_lib"], "pipeline": {"nodes": nodes_for(pipe)},
              "run_space": {"max_runs": n + 1, "blocks": [{"mode": "by_position", "context": {"zz": [float(i) for i in range(n)]}}]}}
@@ -97,7 +110,12 @@ def run_way(pipe: str, way: str, n: int) -> dict:
         wt.start()
         for i in range(n):
             f = orch.enqueue(cfg.nodes, data=None, context=ContextType({}), return_future=True)
-            f.result(timeout=60)
+            if failing:
+                if f.exception(timeout=60) is None:
+                    return {"error": "a failing job's Future completed without an exception"}
+            else:
+                f.result(timeout=60)
+            del f
         stop.set()
         mt.join(timeout=5)
         wt.join(timeout=5)
@@ -146,7 +164,10 @@ def compare(pipe: str, way: str, res: dict) -> List[Tuple[str, str, dict]]:
             out.append((f"transport-channels-accumulate|{way}", f"{pipe}/{way}: channels kept by in-memory transports grow from {a.get('transport_channels')} to "
                         f"{b.get('transport_channels')} between run {ks[0]} and run {k} ({dc / runs_between:.2f} per run)", case))
         obj_growth = {t: b["objects"].get(t, 0) - a["objects"].get(t, 0) for t in set(a["objects"]) | set(b["objects"])}
-        obj_growth = {t: d for t, d in obj_growth.items() if d != 0}
+        # growth "with the number of runs": at least one object per 20 runs of some type; a free-running master / worker
+        # pair can be caught at slightly different points, which moves single transient objects (tuples, frames) either way
+        floor = max(3, runs_between // 20)
+        obj_growth = {t: d for t, d in obj_growth.items() if d >= floor}
         if obj_growth:
             top = dict(sorted(obj_growth.items(), key=lambda kv: -abs(kv[1]))[:8])
             out.append((f"object-growth|{way}", f"{pipe}/{way}: live gc-tracked objects differ between run {ks[0]} and run {k}: total {b['objects_total'] - a['objects_total']:+d}; by type {top}",
@@ -168,8 +189,8 @@ def _worker(chunk):
 
 def check(tier: str, seed: int) -> Result:
     n = 150 if tier == "quick" else 450
-    pipes = list(PIPES) if tier == "thorough" else ["plain-op", "context-processors", "slicers", "sweep-op", "payload-source-sink"]
-    jobs = [(p, w, n) for p in pipes for w in WAYS]
+    pipes = list(PIPES) if tier == "thorough" else ["plain-op", "context-processors", "slicers", "sweep-op", "payload-source-sink", "failing"]
+    jobs = [(p, w, n) for p in pipes for w in WAYS if not (p == "failing" and w == "cli-launch")]
     jobs = core.seeded_order(jobs, seed)
     viols: List[Violation] = []
     samples = []
@@ -196,6 +217,7 @@ def check(tier: str, seed: int) -> Result:
     }
     return Result("exploration", cov, viols, [
         "growth is measured in counts (registered classes, gc-tracked objects by type), not bytes or time",
+        "an object type counts as growing when it gains at least one object per 20 runs between two snapshots (registry lists: any gain)",
         "quick compares runs 50 and 150; thorough 50, 150 and 450",
     ])
 
